@@ -286,7 +286,9 @@ class Emission:
                               f"emitted {[(d[:16].hex(), a) for d, a in emitted]}, expected "
                               f"{[(d[:16].hex(), a) for d, a in expected]} (flags {sorted(fs)}, dest {dest_t})")
                 # later packets on the same circuit: the gate must not depend on the socket being fresh
-                for j, (kind2, size2, di) in enumerate(c.get("followups", [])):
+                for j, fu in enumerate(c.get("followups", [])):
+                    kind2, size2, di = fu[:3]
+                    foreign = len(fu) > 3 and fu[3]
                     rf = c.get("reflag")
                     if rf is not None and j == rf["at"] % len(c["followups"]):
                         # the operator reconfigures the exit while the circuit is in use: what is configured at the
@@ -305,8 +307,26 @@ class Emission:
                     p2 = make_payload(kind2, size2, prefix, c["seed"] + j + 1)
                     want2 = ref_allowed(p2, fs, prefix) and dt2[0] not in NULL_DESTS + ("unknown.invalid",)
                     n0 = {id(t): len(t.sent) for t in loop.transports}
+                    ntr0 = len(loop.transports)
+                    if foreign:
+                        # this cell reaches the exit from another IP address (captured and re-sent, or re-routed)
+                        st2 = {"n": 0}
+
+                        def hook2(fl):
+                            cell = parse_cell(fl.data, prefix)
+                            if cell is None or cell["plaintext"] or fl.dst != exit_node.address or st2["n"]:
+                                return None
+                            st2["n"] += 1
+                            w.net.inject(("6.6.6.6", prev.address[1]), fl.dst, fl.data, note="re-sent from elsewhere")
+                            return []
+                        w.net.on_send = hook2
                     origin.overlay.send_data(circuit.hop.address, circuit.circuit_id, mk_dest(dt2), ("0.0.0.0", 0), p2)
                     await asyncio.sleep(0.3)
+                    w.net.on_send = None
+                    if foreign and len(loop.transports) > ntr0:
+                        self.fail("P4", "enable:later_socket", f"packet {j + 2} of the circuit came from another IP address "
+                                                               f"than the previous hop's and opened an outside socket "
+                                                               f"{[t.local_addr for t in loop.transports[ntr0:]]} (destination {dt2})")
                     new = [(d, tuple(a)) for t in loop.transports for (d, a) in t.sent[n0.get(id(t), 0):]]
                     for d, a in new:
                         if a[0] in ("0.0.0.0", "::") and a[1] == 0:
@@ -316,6 +336,9 @@ class Emission:
                             self.fail("P2", "sendto:later_packet:" + kind2, f"packet {j + 2} of the circuit: outside socket "
                                       f"emitted forbidden data {d[:24].hex()} under exit flags {sorted(fs)}")
                     exp2 = [(p2, resolve(dt2))] if want2 else []
+                    if foreign and not new:
+                        # whether a cell re-sent from elsewhere is still served is not the statement's business
+                        continue
                     if new != exp2:
                         self.fail("P5" if exp2 else "P2", "outbound:later_packet:" + kind2,
                                   f"packet {j + 2} of the circuit: emitted {[(d[:16].hex(), a) for d, a in new]}, expected "
@@ -405,7 +428,7 @@ def _strategy():
         "first_src": st.sampled_from(["prev", "prev", "prev", "same_ip_other_port", "other_ip", "other_ip_after_replay"]),
         "in_via": st.sampled_from(["v4", "v4", "v6", "v6mapped"]),
         "followups": st.lists(st.tuples(st.sampled_from(KINDS), st.sampled_from([2, 12, 23, 64, 300]),
-                                        st.integers(0, len(DESTS) - 1)).map(list), max_size=3),
+                                        st.integers(0, len(DESTS) - 1), st.integers(0, 1)).map(list), max_size=3),
         "reflag": st.none() | st.fixed_dictionaries({
             "at": st.integers(0, 2), "how": st.sampled_from(["assign", "inplace"]),
             "flags": st.sampled_from([[], [EXIT_BT], [EXIT_IPV8], [EXIT_BT, EXIT_IPV8]])}),
